@@ -40,10 +40,10 @@ CONSTANTS CfgMin, CfgMax, CfgWm, CfgFb, CfgUc, CfgUms, CfgRr,   \* raw configura
           Pre            \* index of the deterministic preamble executed first (0 = none): exploration starts from an established pool
 
 VARIABLES nconn, scst, scref, refr, slots, affm, fbm, cnt, gst, pubs, calls, addrs, cfgd, ecfg, meth,
-          now, failing, rrid, pend,
+          now, failing, failIn, rrid, pend,
           g, ev, hist
 
-mvars == <<nconn, scst, scref, refr, slots, affm, fbm, cnt, gst, pubs, calls, addrs, cfgd, ecfg, meth, now, failing, rrid, pend>>
+mvars == <<nconn, scst, scref, refr, slots, affm, fbm, cnt, gst, pubs, calls, addrs, cfgd, ecfg, meth, now, failing, failIn, rrid, pend>>
 vars == <<mvars, g, ev, hist>>
 
 RawCfg == [min |-> CfgMin, max |-> CfgMax, wm |-> CfgWm, fb |-> CfgFb, uc |-> CfgUc, ums |-> CfgUms, rr |-> CfgRr, nopool |-> FALSE]
@@ -95,6 +95,7 @@ Init ==
   /\ meth = TRUE
   /\ now = 0
   /\ failing = FALSE
+  /\ failIn = 0
   /\ rrid = -1
   /\ pend = <<>>
   /\ g = GhostInit(RawCfg)
@@ -141,19 +142,23 @@ Resolve(av, cfgk) ==
      IN
      IF ~cfgd /\ cfgk = "bad"
      THEN /\ Commit([e0 EXCEPT !.res = "ERR"], inp)
-          /\ UNCHANGED <<nconn, scst, scref, refr, slots, affm, fbm, cnt, gst, pubs, calls, cfgd, ecfg, meth, failing, rrid, pend>>
+          /\ UNCHANGED <<nconn, scst, scref, refr, slots, affm, fbm, cnt, gst, pubs, calls, cfgd, ecfg, meth, failing, failIn, rrid, pend>>
      ELSE
      LET ec == IF cfgd THEN ecfg
                ELSE IF cfgk = "none" THEN DefaultCfg ELSE IF cfgk = "other" THEN EffCfg(OtherRaw) ELSE EffCfg(RawCfg)
-         canMake == ~failing /\ av # 0
+         \* how many connections the factory will still produce (the resolver's list must not be empty)
+         allowed0 == IF av = 0 THEN 0 ELSE IF failing THEN failIn ELSE 1000
          psize == PoolSize(scref)
-         \* enforceMinSize runs at initialisation (step 1) and again when the pool is (still) empty (step 2)
+         \* enforceMinSize runs at initialisation (step 1) and again when the pool is (still) empty (step 2); it stops at the first failure
          run1 == ~cfgd
-         make1 == IF run1 /\ canMake /\ psize < ec.min THEN ec.min - psize ELSE 0
-         fail1 == IF run1 /\ ~canMake /\ psize < ec.min THEN <<CNewFail(av)>> ELSE <<>>
+         need1 == IF run1 /\ psize < ec.min THEN ec.min - psize ELSE 0
+         make1 == IF need1 < allowed0 THEN need1 ELSE allowed0
+         fail1 == IF make1 < need1 THEN <<CNewFail(av)>> ELSE <<>>
+         allowed1 == allowed0 - make1
          run2 == psize + make1 = 0
-         make2 == IF run2 /\ canMake THEN ec.min ELSE 0
-         fail2 == IF run2 /\ ~canMake THEN <<CNewFail(av)>> ELSE <<>>
+         need2 == IF run2 THEN ec.min ELSE 0
+         make2 == IF need2 < allowed1 THEN need2 ELSE allowed1
+         fail2 == IF make2 < need2 THEN <<CNewFail(av)>> ELSE <<>>
          makes == make1 + make2
          a == AddConns(makes, av)
          \* then every pool connection and every replacement in flight gets the new addresses
@@ -165,6 +170,7 @@ Resolve(av, cfgk) ==
      IN /\ nconn + makes <= MaxConn
         /\ nconn' = a.nconn /\ scst' = a.scst /\ scref' = a.scref /\ slots' = a.slots
         /\ cfgd' = TRUE /\ ecfg' = ec /\ meth' = IF cfgd THEN meth ELSE cfgk # "none"
+        /\ failIn' = IF failing THEN failIn - makes ELSE failIn
         /\ Commit([e0 EXCEPT !.cc = a.cc \o fail1 \o fail2 \o updcc,
                               !.wb = [WBOf(a.slots, cnt, a.scref, refr) EXCEPT !.cfgset = TRUE, !.ecfg = ec,
                                         !.meths = IF (IF cfgd THEN meth ELSE cfgk # "none") THEN MethodSeq ELSE <<>>]], inp)
@@ -173,7 +179,7 @@ Resolve(av, cfgk) ==
 ResolverError ==
   /\ now' = now + 1
   /\ Commit(BaseEv("rerr"), [op |-> "rerr"])
-  /\ UNCHANGED <<nconn, scst, scref, refr, slots, affm, fbm, cnt, gst, pubs, calls, addrs, cfgd, ecfg, meth, failing, rrid, pend>>
+  /\ UNCHANGED <<nconn, scst, scref, refr, slots, affm, fbm, cnt, gst, pubs, calls, addrs, cfgd, ecfg, meth, failing, failIn, rrid, pend>>
 
 ----------------------------------------------------------------------------
 \* UpdateSubConnState
@@ -183,26 +189,33 @@ Adj(c2, s, d) == IF s = "READY" THEN [c2 EXCEPT !.R = @ + d]
                  ELSE IF s = "CONNECTING" THEN [c2 EXCEPT !.C = @ + d]
                  ELSE IF s = "TF" THEN [c2 EXCEPT !.T = @ + d] ELSE c2
 
-\* blocked round-robin picks whose slot became READY (or whose context ended) complete internally
-WakePend(pd, sl, st, cl, tnow) ==
-  LET Done(p) == st[sl[p.slot].sc] = "READY" \/ (p.dl > 0 /\ p.dl <= tnow) \/ p.cancelled
-      RECURSIVE F(_, _, _, _)
-      F(j, pd2, sl2, cl2) ==
-        IF j > Len(pd) THEN [pend |-> pd2, slots |-> sl2, calls |-> cl2]
-        ELSE LET p == pd[j] IN
-             IF p.done \/ ~Done(p) THEN F(j + 1, Append(pd2, p), sl2, cl2)
-             ELSE F(j + 1, Append(pd2, [p EXCEPT !.done = TRUE, !.rt = tnow, !.rn = Len(cl2) + 1, !.rc = sl2[p.slot].sc]),
+\* blocked round-robin picks whose slot became READY (or whose context ended) complete internally; when several complete
+\* in the same step their goroutines race for the call numbers: `ord' is the order in which they finished
+WakeSet(pd, sl, st, tnow) ==
+  {j \in DOMAIN pd : ~pd[j].done /\ (st[sl[pd[j].slot].sc] = "READY" \/ (pd[j].dl > 0 /\ pd[j].dl <= tnow) \/ pd[j].cancelled)}
+Perms(S) == {f \in [1..Cardinality(S) -> S] : \A i, j \in 1..Cardinality(S) : i # j => f[i] # f[j]}
+WakePend(pd, sl, st, cl, tnow, ord) ==
+  LET RECURSIVE F(_, _, _, _)
+      F(k, pd2, sl2, cl2) ==
+        IF k > Len(ord) THEN [pend |-> pd2, slots |-> sl2, calls |-> cl2]
+        ELSE LET j == ord[k]
+                 p == pd[j]
+             IN F(k + 1, [pd2 EXCEPT ![j] = [p EXCEPT !.done = TRUE, !.rt = tnow, !.rn = Len(cl2) + 1, !.rc = sl2[p.slot].sc]],
                     [sl2 EXCEPT ![p.slot].streams = @ + 1],
                     Append(cl2, [slot |-> p.slot, cmd |-> "BIND", key |-> 0, t0 |-> tnow, dl |-> p.dl, ctx |-> ~p.noctx, open |-> TRUE]))
-  IN F(1, <<>>, sl, cl)
+  IN F(1, pd, sl, cl)
 
 Report(c, s) ==
   /\ c \in 0..nconn
   /\ now' = now + 1
   /\ LET inp == [op |-> "state", c |-> c, s |-> s]
          e0 == [BaseEv("state") EXCEPT !.c = c, !.s = s]
-         unchangedAll == /\ Commit(e0, inp)
-                         /\ UNCHANGED <<nconn, scst, scref, refr, slots, affm, fbm, cnt, gst, pubs, calls, addrs, cfgd, ecfg, meth, failing, rrid, pend>>
+         \* nothing the balancer reacts to; waiting picks still observe the time (context deadlines)
+         unchangedAll == \E ord \in Perms(WakeSet(pend, slots, scst, now + 1)) :
+                           LET w0 == WakePend(pend, slots, scst, calls, now + 1, ord) IN
+                           /\ slots' = w0.slots /\ calls' = w0.calls /\ pend' = w0.pend
+                           /\ Commit([e0 EXCEPT !.wb = WBOf(w0.slots, cnt, scref, refr)], inp)
+                           /\ UNCHANGED <<nconn, scst, scref, refr, affm, fbm, cnt, gst, pubs, addrs, cfgd, ecfg, meth, failing, failIn, rrid>>
      IN
      IF c = 0 THEN unchangedAll
      ELSE IF refr[c] # 0 /\ s # "READY" THEN unchangedAll
@@ -236,12 +249,13 @@ Report(c, s) ==
                       ELSE [kind |-> "gcp", refs |-> {scref2[x] : x \in {y \in Conns : scst2[y] = "READY"}}]
          pubs1 == IF doPub THEN Append(pubs, newPicker) ELSE pubs
          pubcc == IF doPub THEN <<CSt(gst1, Len(pubs) + 1)>> ELSE <<>>
-         w == WakePend(pend, slots1, scst2, calls, now + 1)
-     IN /\ (doPub => Len(pubs) < MaxPub)
+     IN \E ord \in Perms(WakeSet(pend, slots1, scst2, now + 1)) :
+        LET w == WakePend(pend, slots1, scst2, calls, now + 1, ord) IN
+        /\ (doPub => Len(pubs) < MaxPub)
         /\ scst' = scst2 /\ scref' = scref2 /\ refr' = refr1 /\ slots' = w.slots /\ affm' = affm1 /\ fbm' = fbm1
         /\ cnt' = cnt1 /\ gst' = gst1 /\ pubs' = pubs1 /\ calls' = w.calls /\ pend' = w.pend
         /\ Commit([e0 EXCEPT !.cc = rmcc \o idlecc \o pubcc, !.wb = WBOf(w.slots, cnt1, scref2, refr1)], inp)
-        /\ UNCHANGED <<nconn, addrs, cfgd, ecfg, meth, failing, rrid>>
+        /\ UNCHANGED <<nconn, addrs, cfgd, ecfg, meth, failing, failIn, rrid>>
 
 ----------------------------------------------------------------------------
 \* Pick
@@ -300,7 +314,7 @@ Pick(pk, m, keys, shape, noctx, dl) ==
                                               lat |-> (pk = Len(pubs)), cancelled |-> FALSE, done |-> FALSE, rt |-> 0, rn |-> 0, rc |-> 0])
                      /\ Commit([e0 EXCEPT !.res = "BLOCKED"], inp)
                      /\ UNCHANGED <<slots, calls>>
-             /\ UNCHANGED <<nconn, scst, scref, refr, affm, fbm, cnt, gst, pubs, addrs, cfgd, ecfg, meth, failing>>
+             /\ UNCHANGED <<nconn, scst, scref, refr, affm, fbm, cnt, gst, pubs, addrs, cfgd, ecfg, meth, failing, failIn>>
      ELSE
      \E o \in PickOutcomes(p, cmd, key, badreq) :
        /\ rrid' = rrid /\ pend' = pend
@@ -311,40 +325,42 @@ Pick(pk, m, keys, shape, noctx, dl) ==
                /\ fbm' = IF o.fbk # 0 THEN [fbm EXCEPT ![o.fbk] = slots[o.slot].sc] ELSE fbm
                /\ Commit([e0 EXCEPT !.res = "SC", !.rc = slots[o.slot].sc, !.rn = Len(calls) + 1, !.rt = now + 1,
                                     !.wb = WBOf(slots', cnt, scref, refr)], inp)
-               /\ UNCHANGED <<nconn, scst, scref, refr, affm, cnt, gst, pubs, addrs, cfgd, ecfg, meth, failing>>
+               /\ UNCHANGED <<nconn, scst, scref, refr, affm, cnt, gst, pubs, addrs, cfgd, ecfg, meth, failing, failIn>>
           ELSE IF o.grow /\ ~\E c \in Conns : scst[c] \in {"CONNECTING", "IDLE"}
           THEN \* newSubConn -> addSubConn
-               IF failing \/ addrs = 0
+               IF (failing /\ failIn = 0) \/ addrs = 0
                THEN /\ Commit([e0 EXCEPT !.res = "NOSC", !.cc = <<CNewFail(addrs)>>], inp)
-                    /\ UNCHANGED <<nconn, scst, scref, refr, slots, affm, fbm, cnt, gst, pubs, calls, addrs, cfgd, ecfg, meth, failing>>
+                    /\ UNCHANGED <<nconn, scst, scref, refr, slots, affm, fbm, cnt, gst, pubs, calls, addrs, cfgd, ecfg, meth, failing, failIn>>
                ELSE LET a == AddConns(1, addrs) IN
                     /\ nconn < MaxConn
                     /\ nconn' = a.nconn /\ scst' = a.scst /\ scref' = a.scref /\ slots' = a.slots
                     /\ Commit([e0 EXCEPT !.res = "NOSC", !.cc = a.cc, !.wb = WBOf(a.slots, cnt, a.scref, refr)], inp)
+                    /\ failIn' = IF failing THEN failIn - 1 ELSE failIn
                     /\ UNCHANGED <<refr, affm, fbm, cnt, gst, pubs, calls, addrs, cfgd, ecfg, meth, failing>>
           ELSE /\ Commit([e0 EXCEPT !.res = o.res], inp)
-               /\ UNCHANGED <<nconn, scst, scref, refr, slots, affm, fbm, cnt, gst, pubs, calls, addrs, cfgd, ecfg, meth, failing>>
+               /\ UNCHANGED <<nconn, scst, scref, refr, slots, affm, fbm, cnt, gst, pubs, calls, addrs, cfgd, ecfg, meth, failing, failIn>>
 
 \* delivery of the result of a blocked round-robin pick
-Await(j, cancel) ==
+Await(j, cancel, tk) ==      \* tk = 1: a scripted input (consumes a tick); tk = 0: delivery recorded by the harness on its own
   /\ j \in DOMAIN pend
-  /\ now' = now + 1
+  /\ now' = now + tk
   /\ LET p0 == pend[j]
          pd1 == IF cancel THEN [pend EXCEPT ![j].cancelled = TRUE] ELSE pend
-         w == WakePend(pd1, slots, scst, calls, now + 1)
-         p == w.pend[j]
-         op == IF cancel THEN "cancel" ELSE "await"
-         inp == [op |-> op, of |-> p0.i]
-         e0 == [BaseEv(op) EXCEPT !.of = p0.i, !.pk = p0.pk, !.lat = p0.lat, !.m = p0.m, !.noctx = p0.noctx, !.dl = p0.dl]
-         rest == LET RECURSIVE F(_)
-                     F(x) == IF x > Len(w.pend) THEN <<>> ELSE (IF x = j THEN <<>> ELSE <<w.pend[x]>>) \o F(x + 1)
-                 IN F(1)
-     IN IF p.done
-        THEN /\ pend' = rest /\ slots' = w.slots /\ calls' = w.calls
-             /\ Commit([e0 EXCEPT !.res = "SC", !.rc = p.rc, !.rn = p.rn, !.rt = p.rt, !.wb = WBOf(w.slots, cnt, scref, refr)], inp)
-        ELSE /\ pend' = w.pend /\ slots' = w.slots /\ calls' = w.calls
-             /\ Commit([e0 EXCEPT !.res = "BLOCKED", !.wb = WBOf(w.slots, cnt, scref, refr)], inp)
-  /\ UNCHANGED <<nconn, scst, scref, refr, affm, fbm, cnt, gst, pubs, addrs, cfgd, ecfg, meth, failing, rrid>>
+     IN \E ord \in Perms(WakeSet(pd1, slots, scst, now + tk)) :
+        LET w == WakePend(pd1, slots, scst, calls, now + tk, ord)
+            p == w.pend[j]
+            op == IF cancel THEN "cancel" ELSE "await"
+            inp == [op |-> op, of |-> p0.i]
+            e0 == [BaseEv(op) EXCEPT !.t = now + tk, !.of = p0.i, !.pk = p0.pk, !.lat = p0.lat, !.m = p0.m, !.noctx = p0.noctx, !.dl = p0.dl]
+            rest == LET RECURSIVE F(_)
+                        F(x) == IF x > Len(w.pend) THEN <<>> ELSE (IF x = j THEN <<>> ELSE <<w.pend[x]>>) \o F(x + 1)
+                    IN F(1)
+        IN IF p.done
+           THEN /\ pend' = rest /\ slots' = w.slots /\ calls' = w.calls
+                /\ Commit([e0 EXCEPT !.res = "SC", !.rc = p.rc, !.rn = p.rn, !.rt = p.rt, !.wb = WBOf(w.slots, cnt, scref, refr)], inp)
+           ELSE /\ pend' = w.pend /\ slots' = w.slots /\ calls' = w.calls
+                /\ Commit([e0 EXCEPT !.res = "BLOCKED", !.wb = WBOf(w.slots, cnt, scref, refr)], inp)
+  /\ UNCHANGED <<nconn, scst, scref, refr, affm, fbm, cnt, gst, pubs, addrs, cfgd, ecfg, meth, failing, failIn, rrid>>
 
 ----------------------------------------------------------------------------
 \* Done callback
@@ -363,7 +379,7 @@ DoneCall(n, outc, rkeys) ==
                 ELSE [sl0 EXCEPT !.de = IF @ < 50 THEN @ + 1 ELSE 50]
          want == Detecting /\ ~isResp /\ ~ignored /\ sl1.de >= ecfg.uc /\ sl1.lastResp < (now + 1) - ecfg.ums * Pow2(sl1.k)
          attempt == want /\ ~sl1.refreshing /\ scref[sl1.sc] # 0    \* a slot that left the pool is not refreshed
-         made == attempt /\ ~failing /\ addrs # 0
+         made == attempt /\ ~(failing /\ failIn = 0) /\ addrs # 0
          newc == nconn + 1
          sl2 == IF made THEN [sl1 EXCEPT !.refreshing = TRUE] ELSE sl1
          refcc == IF made THEN <<CNew(newc, addrs), CConn(newc)>> ELSE IF attempt THEN <<CNewFail(addrs)>> ELSE <<>>
@@ -389,6 +405,7 @@ DoneCall(n, outc, rkeys) ==
         /\ calls' = [calls EXCEPT ![n].open = FALSE]
         /\ affm' = affm2
         /\ nconn' = IF made THEN newc ELSE nconn
+        /\ failIn' = IF made /\ failing THEN failIn - 1 ELSE failIn
         /\ refr' = refr1
         /\ Commit([BaseEv("done") EXCEPT !.n = n, !.out = outc, !.rkeys = rkeys, !.cc = refcc,
                                          !.wb = WBOf(slots2, cnt, scref, refr1)], inp)
@@ -399,16 +416,18 @@ DoneCall(n, outc, rkeys) ==
 
 Advance(d) ==
   /\ now' = now + 1 + d
-  /\ LET w == WakePend(pend, slots, scst, calls, now + 1 + d) IN
+  /\ \E ord \in Perms(WakeSet(pend, slots, scst, now + 1 + d)) :
+     LET w == WakePend(pend, slots, scst, calls, now + 1 + d, ord) IN
      /\ pend' = w.pend /\ slots' = w.slots /\ calls' = w.calls
      /\ Commit([BaseEv("advance") EXCEPT !.d = d, !.t = now + 1 + d, !.wb = WBOf(w.slots, cnt, scref, refr)], [op |-> "advance", d |-> d])
-  /\ UNCHANGED <<nconn, scst, scref, refr, affm, fbm, cnt, gst, pubs, addrs, cfgd, ecfg, meth, failing, rrid>>
+  /\ UNCHANGED <<nconn, scst, scref, refr, affm, fbm, cnt, gst, pubs, addrs, cfgd, ecfg, meth, failing, failIn, rrid>>
 
-Factory(b) ==
-  /\ UseFail /\ failing # b
+Factory(b, k) ==     \* b: failing from now on; k: ... after k more successful creations
+  /\ UseFail /\ (failing # b \/ (b /\ failIn # k))
   /\ now' = now + 1
   /\ failing' = b
-  /\ Commit([BaseEv("factory") EXCEPT !.fail = b], [op |-> "factory", fail |-> b])
+  /\ failIn' = IF b THEN k ELSE 0
+  /\ Commit([BaseEv("factory") EXCEPT !.fail = b], [op |-> "factory", fail |-> b, after |-> k])
   /\ UNCHANGED <<nconn, scst, scref, refr, slots, affm, fbm, cnt, gst, pubs, calls, addrs, cfgd, ecfg, meth, rrid, pend>>
 
 KeySeqs == {<<>>} \cup {<<k>> : k \in Keys} \cup {<<k1, k2>> : k1 \in Keys, k2 \in Keys}
@@ -441,7 +460,7 @@ DoStep(st) ==
     [] st.op = "advance" -> Advance(st.d)
 
 FreeNext ==
-  IF Undelivered # {} THEN \E j \in Undelivered : Await(j, FALSE) ELSE
+  IF Undelivered # {} THEN \E j \in Undelivered : Await(j, FALSE, 1) ELSE
      \/ \E av \in AVs, ck \in CfgKinds : Resolve(av, ck)
      \/ (cfgd /\ ResolverError)
      \/ \E c \in (IF UseUnknown THEN 0..nconn ELSE 1..nconn), s \in States : Report(c, s)
@@ -456,8 +475,9 @@ FreeNext ==
           \/ (calls[n].cmd = "BIND" /\ o = "OK" /\ \E ks \in KeySeqs : DoneCall(n, o, ks))
           \/ (~(calls[n].cmd = "BIND" /\ o = "OK") /\ DoneCall(n, o, <<>>))
      \/ \E d \in Advs : Advance(d)
-     \/ \E b \in BOOLEAN : Factory(b)
-     \/ \E j \in DOMAIN pend, cn \in BOOLEAN : Await(j, cn)
+     \/ \E b \in BOOLEAN : Factory(b, 0)
+     \/ Factory(TRUE, 1)
+     \/ \E j \in DOMAIN pend, cn \in BOOLEAN : Await(j, cn, 1)
 
 Next ==
   /\ Len(hist) < MaxDepth
@@ -507,7 +527,7 @@ Age(t) == IF now - t > 40 THEN 40 ELSE now - t
 View == <<nconn, scst, scref, refr, [i \in DOMAIN slots |-> [slots[i] EXCEPT !.lastResp = Age(@)]], affm, fbm, cnt, gst, pubs,
           [i \in DOMAIN calls |-> [calls[i] EXCEPT !.t0 = IF calls[i].open THEN Age(@) ELSE 0,
                                                    !.dl = IF calls[i].open /\ @ > 0 THEN (IF @ > now THEN @ - now ELSE -1) ELSE 0]],
-          addrs, cfgd, ecfg, meth, failing, rrid, pend,
+          addrs, cfgd, ecfg, meth, failing, failIn, rrid, pend,
           g.bound, g.stand, g.agg, g.pubs, g.rrs, g.pend, g.init, g.cfg, g.av,
           [i \in DOMAIN g.det |-> [g.det[i] EXCEPT !.lastResp = Age(@)]],
           [i \in DOMAIN g.conns |-> g.conns[i]], g.chans>>
